@@ -40,6 +40,7 @@ type Checker struct {
 	srcCache  map[string][]byte
 	sigCache  map[string]*specSigT
 	notes     []string
+	nonnil    map[string]bool
 }
 
 func fullName(pkgPath, rel string) string {
@@ -113,6 +114,12 @@ func (ck *Checker) addSpecFile(sf *SpecFile) {
 		ck.specFuncs[s.Name] = s
 	}
 	ck.lemmas = append(ck.lemmas, sf.Lemmas...)
+	if ck.nonnil == nil {
+		ck.nonnil = map[string]bool{}
+	}
+	for _, g := range sf.NonNilGlobals {
+		ck.nonnil[g] = true
+	}
 }
 
 func (ck *Checker) contractOf(f *ssa.Function) *FuncContract {
